@@ -15,7 +15,15 @@ namespace vh {
 
 struct Rng {
     uint64_t s;
-    explicit Rng(uint64_t seed) : s(seed * 0x9E3779B97F4A7C15ULL + 0x1234567ULL) {}
+    // the seed is passed through the splitmix finalizer so that seeds n and n+1 give unrelated streams
+    // (the raw state advances by a constant, so un-mixed consecutive seeds would be the same stream shifted)
+    static uint64_t mix(uint64_t z) {
+        z += 0x9E3779B97F4A7C15ULL;
+        z = (z ^ (z >> 30)) * 0xBF58476D1CE4E5B9ULL;
+        z = (z ^ (z >> 27)) * 0x94D049BB133111EBULL;
+        return z ^ (z >> 31);
+    }
+    explicit Rng(uint64_t seed) : s(mix(mix(seed) ^ 0x5DEECE66DULL)) {}
     uint64_t next() {
         uint64_t z = (s += 0x9E3779B97F4A7C15ULL);
         z = (z ^ (z >> 30)) * 0xBF58476D1CE4E5B9ULL;
